@@ -3,6 +3,9 @@ C01 — Lossless one-shot round trip.  (first theorems; more in later commits)
 -/
 import ZstdVerif.Model.Frame
 import ZstdVerif.Model.Rep
+import ZstdVerif.Lemmas.BitsRT
+import ZstdVerif.Lemmas.FSERT
+import ZstdVerif.Lemmas.HufRT
 namespace ZstdVerif.Props.C01
 open ZstdVerif
 
@@ -116,6 +119,86 @@ theorem ml_code_roundtrip (m : Nat) (h : m < 2 ^ 17) : CodeOk ML_base ML_bits (m
     have hlt : m < 128 := by omega
     have tab : ∀ v, v < 128 → ML_base.getD (ML_Code.getD v 0) 0 ≤ v + 3 ∧ v + 3 < ML_base.getD (ML_Code.getD v 0) 0 + 2 ^ ML_bits.getD (ML_Code.getD v 0) 0 := by decide
     exact tab m hlt
+
+
+/-! ### entropy layer: what the encoder side writes, the decoder model reads back (DESIGN §4 C01: bits / fse / huf round trips)
+
+The encoder-side definitions (`BitW`, `FSE.ctableOf / encodeSymbol / encodeAll`, `HufEnc.codesOf / encode1`) mirror bitstream.h,
+fse_compress.c / fse.h and huf_compress.c and are tied to those functions byte for byte on every run (tools/ent_bitw.py, ent_fse.py,
+ent_huf.py); the decoder-side definitions are the ones Model/Block.lean and Model/Huf.lean decode real frames with. -/
+
+open BitW in
+/-- **bits_roundtrip**: for every list of bit fields (value, width ≤ 56) the byte string produced by the forward bit writer (BIT_addBits /
+BIT_flushBits / BIT_closeCStream, any flush schedule: `BitW.flush_irrelevant`) is accepted by the backward reader (BIT_initDStream), which
+then reads the fields back in reverse order, value for value, without over-read, and ends exactly at the end of the stream. -/
+theorem bits_roundtrip (fs : List (Nat × Nat)) (hw : ∀ f ∈ fs, f.2 ≤ 56) :
+    ∃ r0, BitR.init (ofFields fs) 0 (ofFields fs).size = .ok r0 ∧ r0.left = totalBits fs ∧ r0.over = false ∧
+      (BitR.readList r0 (fs.reverse.map (·.2))).1 = fs.reverse.map (fun f => f.1 % 2 ^ f.2) ∧
+      (BitR.readList r0 (fs.reverse.map (·.2))).2.over = false ∧
+      (BitR.readList r0 (fs.reverse.map (·.2))).2.atEnd = true :=
+  BitR.bits_roundtrip fs hw
+
+open BitW in
+/-- the same for a stream that sits anywhere inside a larger input (a block inside a frame), whatever bytes follow it -/
+theorem bits_roundtrip_at (fs : List (Nat × Nat)) (hw : ∀ f ∈ fs, f.2 ≤ 56) (src : Bytes) (start : Nat)
+    (hsrc : src.extract start (start + (ofFields fs).size) = ofFields fs) :
+    ∃ r0, BitR.init src start (ofFields fs).size = .ok r0 ∧ r0.left = totalBits fs ∧ r0.over = false ∧
+      (BitR.readList r0 (fs.reverse.map (·.2))).1 = fs.reverse.map (fun f => f.1 % 2 ^ f.2) ∧
+      (BitR.readList r0 (fs.reverse.map (·.2))).2.over = false ∧
+      (BitR.readList r0 (fs.reverse.map (·.2))).2.atEnd = true :=
+  BitR.bits_roundtrip_at fs hw src start hsrc
+
+/-- a decoder that asks for more bits than the encoder wrote can never end cleanly -/
+theorem read_underflow_never_clean (r : BitR) (n : Nat) (h : r.left < n) : (r.read n).2.over = true ∧ (r.read n).2.atEnd = false :=
+  BitR.read_underflow_sets_over r n h
+
+open FSE in
+/-- **fse_step_inverse** (the heart of tANS): for EVERY normalised distribution and EVERY symbol spreading that respects the counts, one
+FSE_encodeSymbol step from state S with symbol s lands on a state whose decoding cell (the table Model/Block.lean decodes with) carries
+exactly s, asks for exactly the number of bits the encoder flushed, and restores S from them. -/
+theorem fse_step_inverse {syms : Array Nat} {norm : Array Int} {L S s S2 v nb : Nat} (hN : NormOK norm L) (hS : SpreadOK syms norm L)
+    (hL : L ≤ 15) (hs : s < norm.size) (h0 : norm[s]! ≠ 0) (hS1 : 2 ^ L ≤ S) (hS2 : S < 2 ^ (L + 1))
+    (h : encodeSymbol (ctableOf syms norm L) S s = (S2, (v, nb))) :
+    2 ^ L ≤ S2 ∧ S2 < 2 ^ (L + 1) ∧
+      ((cellsOf syms norm L)[S2 - 2 ^ L]!).sym = s ∧ ((cellsOf syms norm L)[S2 - 2 ^ L]!).nbBits = nb ∧
+      ((cellsOf syms norm L)[S2 - 2 ^ L]!).newState + v = S - 2 ^ L :=
+  step_inverse hN hS hL hs h0 hS1 hS2 h
+
+open FSE in
+/-- **fse_roundtrip**: a whole symbol sequence driven the way ZSTD_encodeSequences drives one table (FSE_initCState2 for the last symbol,
+FSE_encodeSymbol backwards, FSE_flushCState) is decoded, the way ZSTD_decodeSequence drives one table, to exactly that sequence, and
+the bit-field stack is exactly used up.  The two spreading facts are decidable; the driver evaluates them on every table of every
+correspondence run, and `fse_default_tables_roundtrip` discharges them for the predefined distributions. -/
+theorem fse_roundtrip {norm : Array Int} {L : Nat} (hN : NormOK norm L) (hL : L ≤ 14)
+    (hS : spreadOK (spreadEnc norm L) norm L = true) (hE : spreadEnc norm L = spread norm L)
+    (σ : List Nat) (hne : σ ≠ []) (hσ : ∀ s, s ∈ σ → s < norm.size ∧ norm[s]! ≠ 0) :
+    decodeAll (buildCells norm L) L σ.length (encodeAll (buildCTable norm L) σ) = some (σ, []) :=
+  build_roundtrip hN hL hS hE σ hne hσ
+
+open FSE in
+/-- the three predefined distributions of the format (dumped from the source each run): unconditional round trip -/
+theorem fse_default_tables_roundtrip (σ : List Nat) (hne : σ ≠ []) :
+    ((∀ s, s ∈ σ → s < 36) → decodeAll (buildCells Gen.LL_defaultNorm.toArray 6) 6 σ.length (encodeAll (buildCTable Gen.LL_defaultNorm.toArray 6) σ) = some (σ, [])) ∧
+    ((∀ s, s ∈ σ → s < 29) → decodeAll (buildCells Gen.OF_defaultNorm.toArray 5) 5 σ.length (encodeAll (buildCTable Gen.OF_defaultNorm.toArray 5) σ) = some (σ, [])) ∧
+    ((∀ s, s ∈ σ → s < 53) → decodeAll (buildCells Gen.ML_defaultNorm.toArray 6) 6 σ.length (encodeAll (buildCTable Gen.ML_defaultNorm.toArray 6) σ) = some (σ, [])) :=
+  default_tables_roundtrip σ hne
+
+open HufRT HufEnc Huf in
+/-- **huf_table_inverts_code**: for every valid weight vector (Kraft sum = 2^log) and every symbol with a non-zero weight, the code the
+compressor assigns (valPerRank rule of HUF_buildCTableFromTree / HUF_readCTable) followed by ANY further bits indexes a cell of the
+decoding table (HUF_readDTableX1_wksp, the table Model/Huf.lean decodes with) that names that symbol and that code length. -/
+theorem huf_table_inverts_code {weights : Array Nat} {log : Nat} (ok : WeightsOK weights log) (used : Nat) (s : Nat) (hs : s < weights.size) (hw : 0 < weights[s]) :
+    ∃ val nb, (codesOf weights log)[s]? = some (val, nb) ∧ nb = log + 1 - weights[s] ∧ 1 ≤ nb ∧ nb ≤ log ∧ val < 2 ^ nb ∧
+      ∀ x, x < 2 ^ (log - nb) → (buildTable ⟨weights, log, used⟩).cells[val * 2 ^ (log - nb) + x]? = some (s, nb) :=
+  table_inverts_code ok used s hs hw
+
+open HufRT HufEnc Huf in
+/-- **huf_roundtrip**: whatever weight description the decoder accepts (`Huf.readStats` succeeds), literals coded with the codes those
+weights define are decoded back exactly, consuming the stream exactly. -/
+theorem huf_roundtrip (src : Bytes) (start n hmax : Nat) (st : Stats) (h : readStats src start n hmax = .ok st)
+    (lits : List Nat) (hl : ∀ s ∈ lits, ∃ hs : s < st.weights.size, 0 < st.weights[s]) :
+    decodeFields (buildTable st) lits.length (encode1 (codesOf st.weights st.tableLog) lits) = (lits, { bits := [], over := false }) :=
+  stream_roundtrip_readStats src start n hmax st h lits hl
 
 example : Rep.resolve ⟨1, 4, 8⟩ (Rep.finalizeOffBase 4 ⟨1, 4, 8⟩ false) 0 = (4, ⟨4, 1, 8⟩) := by decide
 
